@@ -86,6 +86,40 @@ impl Encode for ChunkedEncoder {
     }
 }
 
+/// Rolling.tla EncFail: when armed, writes the given text (a well-formed shorter record, or nothing) and fails.
+struct FaultyEncoder {
+    inner: Box<dyn Encode>,
+    script: Arc<Mutex<Option<String>>>,
+}
+impl std::fmt::Debug for FaultyEncoder {
+    fn fmt(&self, f: &mut std::fmt::Formatter<'_>) -> std::fmt::Result {
+        f.write_str("FaultyEncoder")
+    }
+}
+impl Encode for FaultyEncoder {
+    fn encode(&self, w: &mut dyn EncWrite, record: &log::Record) -> anyhow::Result<()> {
+        if let Some(part) = self.script.lock().unwrap().take() {
+            w.write_all(part.as_bytes())?;
+            anyhow::bail!("scripted encoder failure");
+        }
+        self.inner.encode(w, record)
+    }
+}
+#[derive(serde::Deserialize)]
+struct FaultyConfig {
+    pattern: String,
+}
+struct FaultyDeserializer {
+    script: Arc<Mutex<Option<String>>>,
+}
+impl log4rs::config::Deserialize for FaultyDeserializer {
+    type Trait = dyn Encode;
+    type Config = FaultyConfig;
+    fn deserialize(&self, c: FaultyConfig, _: &log4rs::config::Deserializers) -> anyhow::Result<Box<dyn Encode>> {
+        Ok(Box::new(FaultyEncoder { inner: Box::new(log4rs::encode::pattern::PatternEncoder::new(&c.pattern)), script: self.script.clone() }))
+    }
+}
+
 #[derive(Debug)]
 struct ScriptedTrigger {
     pre: bool,
@@ -109,12 +143,18 @@ struct CheckedPolicy {
     inner: CompoundPolicy,
     bad: Arc<Mutex<Vec<(u64, u64)>>>,
     calls: Arc<Mutex<usize>>,
+    /// bytes a failed encoder left in the appender's buffer (Rolling.tla writer.buf): a pre-processing policy is
+    /// consulted before they are flushed
+    buffered: Arc<std::sync::atomic::AtomicU64>,
 }
 impl Policy for CheckedPolicy {
     fn process(&self, log: &mut LogFile) -> anyhow::Result<()> {
         *self.calls.lock().unwrap() += 1;
         let shown = log.len_estimate();
-        let real = fs::metadata(log.path()).map(|m| m.len()).unwrap_or(u64::MAX);
+        let mut real = fs::metadata(log.path()).map(|m| m.len()).unwrap_or(u64::MAX);
+        if self.inner.is_pre_process() {
+            real = real.saturating_add(self.buffered.load(std::sync::atomic::Ordering::SeqCst));
+        }
         if shown != real {
             self.bad.lock().unwrap().push((shown, real));
         }
@@ -301,6 +341,12 @@ pub fn replay_case(case: &Value, mat: Mat) -> Option<Value> {
     let append_mode = p["append"].as_bool().unwrap();
     let trig = p["trig"].as_str().unwrap().to_string();
     let limit = p["limit"].as_u64().unwrap();
+    // histories with encoder failures depend on how many units fit into the 1 KiB BufWriter: each instance names
+    // the class of units it speaks about (0 = no encoder failure, any unit)
+    let buf_floor = p["buf"].as_u64().unwrap_or(0);
+    if buf_floor != 0 && (if 1024 / mat.unit >= 50 { 99 } else { 1024 / mat.unit as u64 }) != buf_floor {
+        return None;
+    }
     let scratch = Scratch::new("roll");
     let other = if mat.cross_mount {
         // crash images are single-directory copies: histories with process death are left to the other materialisations
@@ -323,6 +369,8 @@ pub fn replay_case(case: &Value, mat: Mat) -> Option<Value> {
     let consulted = Arc::new(Mutex::new(0usize));
     let bad_len = Arc::new(Mutex::new(vec![]));
     let policy_calls = Arc::new(Mutex::new(0usize));
+    let enc_script: Arc<Mutex<Option<String>>> = Arc::new(Mutex::new(None));
+    let buffered = Arc::new(std::sync::atomic::AtomicU64::new(0));
     let mut appender: Option<Box<dyn Append>> = None;
     let ops = case["ops"].as_array().unwrap();
     let fail = |step: usize, what: &str, detail: Value| Some(json!({"step": step, "op": ops[step], "what": what, "detail": detail}));
@@ -358,6 +406,7 @@ pub fn replay_case(case: &Value, mat: Mat) -> Option<Value> {
                     // the documented default is what the behaviour asks for
                     let mut d = log4rs::config::Deserializers::default();
                     d.insert("scripted", ScriptedDeserializer { decisions: decisions.clone(), consulted: consulted.clone() });
+                    d.insert("faulty", FaultyDeserializer { script: enc_script.clone() });
                     let trig_cfg = match trig.as_str() {
                         "size" => json!({"kind": "size", "limit": limit * mat.unit as u64}),
                         "startup" => json!({"kind": "onstartup", "min_size": limit * mat.unit as u64}),
@@ -374,7 +423,9 @@ pub fn replay_case(case: &Value, mat: Mat) -> Option<Value> {
                     } else {
                         json!({"kind": "fixed_window", "pattern": world.pattern(), "count": 0})
                     };
-                    let mut doc = json!({"path": world.act().to_string_lossy(), "encoder": {"pattern": "{m}"},
+                    let enc_cfg = if si % 2 == 0 { json!({"pattern": "{m}"}) } else { json!({"kind": "faulty", "pattern": "{m}"}) };
+                    let enc_cfg = if ops.iter().any(|o| o["res"] == "encfail") { json!({"kind": "faulty", "pattern": "{m}"}) } else { enc_cfg };
+                    let mut doc = json!({"path": world.act().to_string_lossy(), "encoder": enc_cfg,
                                          "policy": {"trigger": trig_cfg, "roller": roller_cfg}});
                     if !append_mode {
                         doc["append"] = json!(false);
@@ -388,12 +439,14 @@ pub fn replay_case(case: &Value, mat: Mat) -> Option<Value> {
                         Err(pn) => return fail(si, "appender build (from configuration) panicked", json!(pn)),
                     }
                 } else {
-                let policy = CheckedPolicy { inner: CompoundPolicy::new(trigger, roller), bad: bad_len.clone(), calls: policy_calls.clone() };
+                let policy = CheckedPolicy { inner: CompoundPolicy::new(trigger, roller), bad: bad_len.clone(), calls: policy_calls.clone(),
+                                             buffered: buffered.clone() };
                 let enc: Box<dyn Encode> = if mat.chunked {
                     Box::new(ChunkedEncoder)
                 } else {
                     Box::new(log4rs::encode::pattern::PatternEncoder::new("{m}"))
                 };
+                let enc: Box<dyn Encode> = Box::new(FaultyEncoder { inner: enc, script: enc_script.clone() });
                 match catch(|| RollingFileAppender::builder().append(append_mode).encoder(enc).build(world.act(), Box::new(policy))) {
                     Ok(Ok(a)) => appender = Some(Box::new(a)),
                     Ok(Err(e)) => return fail(si, "appender build failed", json!(e.to_string())),
@@ -419,7 +472,10 @@ pub fn replay_case(case: &Value, mat: Mat) -> Option<Value> {
             "unobstruct" => {
                 let _ = fs::remove_dir_all(world.arch(op["i"].as_i64().unwrap()));
             }
-            "stop" => drop(appender.take()),
+            "stop" => {
+                drop(appender.take());
+                buffered.store(0, std::sync::atomic::Ordering::SeqCst);
+            }
             "append" => {
                 let id = op["id"].as_i64().unwrap();
                 let sz = op["sz"].as_i64().unwrap();
@@ -465,6 +521,7 @@ pub fn replay_case(case: &Value, mat: Mat) -> Option<Value> {
                     }
                     // the process is dead: forget the appender, continue on the crash image
                     drop(appender.take());
+                    buffered.store(0, std::sync::atomic::Ordering::SeqCst);
                     decisions.lock().unwrap().clear();
                     // the image was taken with absolute paths of the old directory inside nothing: files only
                     world.dir = image;
@@ -475,7 +532,22 @@ pub fn replay_case(case: &Value, mat: Mat) -> Option<Value> {
                     }
                     continue;
                 }
+                let encfail = res == "encfail";
+                if encfail {
+                    let k = op["part"].as_i64().unwrap();
+                    *enc_script.lock().unwrap() = Some(payload(id, k, mat.unit));
+                }
+                let res = if encfail { "err" } else { res };
                 let r = catch(|| a.append(&log::Record::builder().level(log::Level::Info).args(format_args!("{}", msg)).build()));
+                if encfail {
+                    if enc_script.lock().unwrap().take().is_some() {
+                        return fail(si, "the encoder was not called where the specification has it fail", Value::Null);
+                    }
+                    buffered.store(op["buffered"].as_u64().unwrap() * mat.unit as u64, std::sync::atomic::Ordering::SeqCst);
+                } else {
+                    // every other append flushed the buffer (with the record, or when the writer was closed for a rotation)
+                    buffered.store(0, std::sync::atomic::Ordering::SeqCst);
+                }
                 let got_res = match &r {
                     Ok(Ok(())) => "ok",
                     Ok(Err(_)) => "err",
